@@ -18,9 +18,14 @@ CONTEXTS = ('return', 'assign', 'expr', 'if', 'try', 'with', 'listcomp', 'genexp
 SHADOWS = {'nested-shadow-kw': ('vk', 'def _inner(kwargs):', 'return _inner({})'),
            'nested-shadow-kw-posonly': ('vk', 'def _inner(kwargs, /):', 'return _inner({})'),
            'nested-shadow-va-posonly': ('va', 'def _inner(args, /):', 'return _inner(())')}
-ROUTES = ('global', 'closure', 'attribute', 'self', 'param-partial', 'wraps')
+ROUTES = ('global', 'closure', 'closure-shadowing-global', 'attribute', 'self', 'param-partial', 'wraps')
 UNRESOLVABLE = ('missing-global', 'non-callable', 'unset-attribute')
-DECLARED = ('declared-function', 'declared-method', 'declared-super', 'declared-apply-super')
+DECLARED = ('declared-function', 'declared-method', 'declared-method-dotted', 'declared-super', 'declared-apply-super')
+# expressions used as the first fixed positional argument of the forwarding call:
+# (production, text, star it taints, star the outer must own)
+ARG_EXPRS = (('arg-const', '10', None, None), ('arg-pops-kwargs', "kwargs.pop('%s', None)" % FOREIGN_KW, 'vk', 'vk'),
+             ('arg-hands-kwargs-off', 'observe(kwargs)', 'vk', 'vk'), ('arg-len-args', 'len(args)', None, 'va'),
+             ('arg-walrus-rebinds-args', '(args := ())', 'va', 'va'))
 STAR_FORMS = ('pristine', 'absent', 'foreign', 'doubled')
 
 # taint statements: (production name, star, statement text, taints?)  — "taints" is the ground truth
@@ -128,6 +133,7 @@ class Prog(object):
         self.n_sites = 1
         self.emulate = False
         self.partial = False
+        self.argexpr = None
 
     def label(self):
         return ' '.join(self.features)
@@ -138,8 +144,10 @@ def _indent(text, n=1):
     return '\n'.join(pad + line if line else line for line in text.split('\n'))
 
 
-def _call_args(k, names, va_form, vk_form):
+def _call_args(k, names, va_form, vk_form, first=None):
     parts = [str(10 + i) for i in range(k)]
+    if k and first is not None:
+        parts[0] = first
     if va_form == 'pristine':
         parts.append('*args')
     elif va_form == 'foreign':
@@ -156,8 +164,8 @@ def _call_args(k, names, va_form, vk_form):
     return parts
 
 
-def _call_text(callee_expr, k, names, va_form, vk_form):
-    return '%s(%s)' % (callee_expr, ', '.join(_call_args(k, names, va_form, vk_form)))
+def _call_text(callee_expr, k, names, va_form, vk_form, first=None):
+    return '%s(%s)' % (callee_expr, ', '.join(_call_args(k, names, va_form, vk_form, first)))
 
 
 GROUPS = ('shapes', 'contexts', 'taints', 'unresolvable')      # + 'declared' (C04), 'full'
@@ -218,6 +226,9 @@ def draw(cfg):
             rest = [x for x in pool if x not in names]
             if rest:
                 names += (rest[sym.pick(len(rest), 'name2')],)
+    if k and g.get('argexprs', group in ('shapes', 'taints', 'full')):
+        cand = [e for e in ARG_EXPRS if e[3] is None or (e[3] == 'vk' and ospec.vk) or (e[3] == 'va' and ospec.va)]
+        p.argexpr = cand[sym.pick(len(cand), 'argexpr')] if len(cand) > 1 else cand[0]
     unres = None
     if unres_on:
         unres = UNRESOLVABLE[sym.pick(len(UNRESOLVABLE), 'unreskind')]
@@ -257,6 +268,10 @@ def assemble(p, ospec, cspec, k, names, va_form, vk_form, route, context, taint,
             eff[star] = 'tainted'
     else:
         p.features.append('taint:none')
+    if p.argexpr is not None:
+        p.features.append(p.argexpr[0])
+        if p.argexpr[2] is not None and eff[p.argexpr[2]] in ('pristine', 'doubled'):
+            eff[p.argexpr[2]] = 'tainted'       # arguments are evaluated before the stars are unpacked
     if context in SHADOWS and eff[SHADOWS[context][0]] in ('pristine', 'doubled'):
         eff[SHADOWS[context][0]] = 'tainted'
     p.star_forms = eff
@@ -287,13 +302,15 @@ def assemble(p, ospec, cspec, k, names, va_form, vk_form, route, context, taint,
         callee_expr = 'self.callee'
     elif route == 'param-partial':
         callee_expr = 'fn'
-    elif route == 'declared-method':
+    elif route in ('declared-method', 'declared-method-dotted'):
         callee_expr = 'self.callee'
     elif route == 'declared-super':
         callee_expr = 'super().wrapper'
     elif route == 'declared-apply-super':
         callee_expr = 'super(K, self).wrapper'
-    call = _call_text(callee_expr, k, names, va_form, vk_form)
+    if route == 'declared-method-dotted':
+        callee_expr = 'self.a.b.callee'
+    call = _call_text(callee_expr, k, names, va_form, vk_form, p.argexpr[1] if p.argexpr else None)
     if p.partial:
         # the wrapper hands its arguments to functools.partial(callee, ...): nothing is bound yet, CPython only
         # rejects surplus arguments (observed through inspect.signature of the partial object)
@@ -366,6 +383,14 @@ def assemble(p, ospec, cspec, k, names, va_form, vk_form, route, context, taint,
             lines.append('class K(object):\n' + _indent('def callee(%s):\n    return None\n' % cdef) + '\n' +
                          _indent("@specifiers.forwards_to_method('callee', %s)\ndef wrapper(%s):\n" % (', '.join(dargs), sdef) +
                                  _indent(body)) + '\ninst = K()\nwrapper = K.__dict__["wrapper"]\ncallee = inst.callee\nf = inst.wrapper\n')
+        elif route == 'declared-method-dotted':
+            lines.append('class NS(object):\n    pass\n\ndef _decoy(zz_decoy, /, *, zz_other):\n    return None\n\n' +
+                         'class K(object):\n' +
+                         _indent('def __init__(self):\n    self.a = NS()\n    self.a.b = NS()\n    self.a.b.callee = self._callee\n'
+                                 '    self.b = NS()\n    self.b.callee = _decoy\n    self.callee = _decoy\n') + '\n' +
+                         _indent('def _callee(%s):\n    return None\n' % cdef) + '\n' +
+                         _indent("@specifiers.forwards_to_method('a.b.callee', %s)\ndef wrapper(%s):\n" % (', '.join(dargs), sdef) +
+                                 _indent(body)) + '\ninst = K()\nwrapper = K.__dict__["wrapper"]\ncallee = inst._callee\nf = inst.wrapper\n')
         elif route == 'declared-super':
             lines.append('class Base(object):\n' + _indent('def wrapper(%s):\n    return None\n' % cdef) + '\n' +
                          'class K(Base):\n' +
@@ -387,10 +412,13 @@ def assemble(p, ospec, cspec, k, names, va_form, vk_form, route, context, taint,
         lines.append('class NS(object):\n    pass\nns = NS()\nns.sub = NS()\n')
         if route == 'attribute':
             lines.append('ns.sub.f = callee\n')
-    if route == 'closure':
+    if route == 'closure-shadowing-global':
+        lines.append('def callee(zz_decoy, /, *, zz_other):\n    return None\n')
+    if route in ('closure', 'closure-shadowing-global'):
         lines.append('def make():\n' + _indent(callee_def) + '\n' +
                      _indent('def wrapper(%s):\n' % odef + _indent(body)) + '\n    return wrapper, callee\n' +
-                     'wrapper, callee = make()\nf = wrapper\n')
+                     ('wrapper, closure_callee = make()\nf = wrapper\n' if route == 'closure-shadowing-global'
+                      else 'wrapper, callee = make()\nf = wrapper\n'))
     elif route == 'self':
         sdef = 'self' + (', ' + odef if odef else '')
         cdef = 'self' + (', ' + cspec.deflist() if cspec.deflist() else '')
@@ -429,9 +457,9 @@ def build(p):
         linecache.cache[fname] = (len(p.text), None, p.text.splitlines(True), fname)
         ns = {'__name__': 'symx_prog_%d' % _counter[0]}
         exec(compile(p.text, fname, 'exec'), ns)
-        p.objs = dict(f=ns['f'], wrapper=ns.get('wrapper'), callee=ns.get('callee'), ns=ns)
+        p.objs = dict(f=ns['f'], wrapper=ns.get('wrapper'), callee=ns.get('closure_callee') or ns.get('callee'), ns=ns)
         p.outer = p.outer.with_real(_both_branches(ns)) if p.context == 'if' else p.outer.with_real(ns['f'])
-        p.callee = p.callee.with_real(ns.get('callee'))
+        p.callee = p.callee.with_real(p.objs['callee'])
         p.sites = [(s, p.callee) for s, _ in p.sites]
     return p
 
